@@ -85,7 +85,7 @@ def main(tier):
     write(fx + '/main.as', MAINSRC)
     r = tc.aldor(['-Q1', '-Fao', '-Ffm', 'vlib.as'], fx)
     r2 = tc.aldor(['-Q1', '-Fao', '-Ffm', 'main.as'], fx)
-    run(['ar', 'cr', 'libvl.al', 'vlib.ao'], cwd=fx, norand=False)
+    run(['ar', 'cr', 'libvl.al', 'main.ao', 'vlib.ao'], cwd=fx, norand=False)
     if r.rc != 0 or r2.rc != 0 or not os.path.exists(fx + '/vlib.ao'):
         ck.report('fixture-build-failed', (r.text() + r2.text())[-800:])
         ck.finish()
@@ -144,7 +144,7 @@ def main(tier):
 
     # damage plan
     plan = []
-    kinds_t = ['ao2c', 'client', 'fm2c', 'al', 'interp'] if tier == 'thorough' else ['ao2c', 'client']
+    kinds_t = ['ao2c', 'client', 'fm2c', 'al', 'interp'] if tier == 'thorough' else ['ao2c', 'client', 'al']
     for kind in kinds_t:
         data = files[TARGET[kind]]
         for n in range(len(data)):
